@@ -210,7 +210,8 @@ func runC06(c C06Case) *Result {
 			depth++
 			nBefore := len(fr.before.Hashes)
 			for _, in := range insts {
-				err := in.Acc().Undo(uint64(fr.b.Add), cloneProofTH(fr.proofT, fr.proofH), cloneHashes(fr.delH), cloneHashes(fr.roots))
+				in.ar.next()
+				err := in.Acc().Undo(uint64(fr.b.Add), in.ar.proofTH(fr.proofT, fr.proofH), in.ar.hashes(fr.delH), in.ar.hashes(fr.roots))
 				if err != nil {
 					return res.failf("step %d: %s Undo (depth %d) of block {del %v, add %d} failed: %v", i, in.Cfg, depth, fr.b.Del, fr.b.Add, err)
 				}
